@@ -210,7 +210,7 @@ static void print_result(edn_result_t r, const char* input, size_t n, edn_parse_
 }
 
 static int h_dump_command(const char* cmd, int nt, char** tok) {
-    if (!strcmp(cmd, "doc") && nt == 5) {
+    if (!strcmp(cmd, "doc") && (nt == 5 || nt == 6)) {
         buf_t b = buf_from_hex(tok[1]);
         edn_reader_registry_t* reg = registry_from_spec(tok[2]);
         edn_parse_options_t opt;
@@ -225,7 +225,9 @@ static int h_dump_command(const char* cmd, int nt, char** tok) {
             static const char empty[1] = {0};
             r = edn_read_with_options(empty, 0, &opt);
         } else {
-            r = edn_read_with_options(b.p, b.n, &opt);
+            /* optional 6th token: explicit length shorter than the buffer (bytes follow) */
+            size_t len = (nt == 6) ? (size_t) strtoull(tok[5], 0, 10) : b.n;
+            r = edn_read_with_options(b.p, len, &opt);
         }
         print_result(r, b.p, b.n, &opt);
         if (r.value && r.value != &g_eof_marker) edn_free(r.value);
